@@ -158,8 +158,40 @@ def uniqueNp (j : Json) : R Json := do
   let d ← fld j "desc" >>= asList asLbl
   pure (ofList ofLbl (uniq Lbl.le (npCoerce d)))
 
+/-- one step of a multi-step session on one object (round 4) -/
+def asStep (j : Json) : R (Step Lbl Rat) := do
+  let kind ← fld j "do" >>= asStr
+  match kind with
+  | "reorder" => do
+    let p ← fld j "order" >>= asList asNat
+    pure (Step.op (InPlace.reorder p))
+  | "set_pat" => do
+    let k ← fld j "key" >>= asStr
+    let v ← fld j "vals" >>= asList asLbl
+    pure (Step.op (InPlace.setPat k v))
+  | "write" => do
+    let r ← fld j "r" >>= asNat
+    let k ← fld j "k" >>= asNat
+    let x ← fld j "val" >>= asOpt asRat
+    pure (Step.op (InPlace.write r k x))
+  | "draw" => do
+    let patBy ← asStr (fldD j "pat_by" (Json.str "index"))
+    let d ← fld j "draws" >>= asList asNat
+    pure (Step.draw patBy d)
+  | _ => throw s!"unknown step {kind}"
+
+/-- a whole session from the *initial* content: the results of its draws, in order -/
+def sessionOp (j : Json) : R Json := do
+  let s ← asStack j
+  let steps ← fld j "steps" >>= asList asStep
+  pure (Json.arr ((runSession Lbl.le s steps).map (fun r =>
+    match r with
+    | none => obj [("exc", Json.str "KeyError")]
+    | some (r, pi) => obj [("stack", ofStack r), ("pat_idx", ofList ofLbl pi)])).toArray)
+
 def handle : Handler := fun op j =>
   match op with
+  | "c09.session" => some (sessionOp j)
   | "c09.boot" => some (boot j)
   | "c09.resample" => some (resample j)
   | "c09.resample_rdm" => some (resampleRdm j)
